@@ -37,6 +37,7 @@ Definition writer_op (o : op) : Prop :=
   match o with
   | Put a c => put_accepts a c = true
   | Delete _ => True
+  | SetCs _ => True
   | Get _ => False
   end.
 
@@ -55,6 +56,7 @@ Section Conc.
                   | Some _ => {| m_content := m_content m; m_cache := del a (m_cache m); m_cs := m_cs m |}
                   | None => m
                   end
+    | SetCs s => {| m_content := m_content m; m_cache := m_cache m; m_cs := s |}
     end.
 
   Definition needs_save (m : mem) (o : op) : bool :=
@@ -62,6 +64,7 @@ Section Conc.
     | Get _ => false
     | Put _ _ => true
     | Delete a => match lookup a (m_cache m) with Some _ => true | None => false end
+    | SetCs _ => true
     end.
 
   Definition with_thread (g : gstate) (i : nat) (t : thread) : gstate :=
